@@ -492,6 +492,35 @@ class SlidingWindowReduction(ArrayExpr):
             plan.append((out_len, edge - starts[b], b, e))
         return plan
 
+    def _lower(self):
+        # The native plan was chosen from the chunks the input advertised when
+        # the reduction was rewritten; a later rewrite of the input (e.g. a
+        # nested sliding-window reduction) may have coarsened them.  The banded
+        # decomposition needs every output-emitting block to be no larger than
+        # ``window - 1``, so split oversized blocks before emitting tasks.
+        depth = self.window - 1
+        axis = self.sliding_axis
+        chunks = self.array.chunks[axis]
+        out_len = sum(chunks) - depth
+        start = 0
+        oversized = False
+        for c in chunks:
+            if start >= out_len:
+                break
+            oversized |= c > depth
+            start += c
+        if not oversized:
+            return None
+        split = []
+        for c in chunks:
+            while c > depth:
+                split.append(depth)
+                c -= depth
+            split.append(c)
+        new_chunks = list(self.array.chunks)
+        new_chunks[axis] = tuple(split)
+        return type(self)(self.array.rechunk(tuple(new_chunks)), *self.operands[1:])
+
     @cached_property
     def _reduce_func(self):
         return partial(
